@@ -19,6 +19,7 @@
 #include "Util/SelectionRule.h"
 #include "Util/CompInfo.h"
 #include "Util/SimpleRandom.h"
+#include "Util/VerifHook.h"
 #include "MatOp/internal/ArnoldiOp.h"
 #include "LinAlg/UpperHessenbergQR.h"
 #include "LinAlg/DoubleShiftQR.h"
@@ -85,6 +86,7 @@ private:
     // Implicitly restarted Arnoldi factorization
     void restart(Index k, SortRule selection)
     {
+        SPECTRA_VERIF_EVENT("restart", m_fac);
         using std::norm;
 
         if (k >= m_ncv)
